@@ -4,7 +4,7 @@
 import json, os
 from vlib import Inconclusive, run_json, CORES
 
-MODES = {"C01": ["scalar", "set", "bool", "subq"], "C02": ["page"], "C19": ["scalar", "bool", "page"], "C20": []}
+MODES = {"C01": ["scalar", "set", "bool", "subq", "big"], "C02": ["page"], "C19": ["scalar", "bool", "page"], "C20": []}
 
 
 def cases_cfg(mode, dev):
